@@ -4,7 +4,7 @@ use libfuzzer_sys::fuzz_target;
 use rio_verif::engine::Outcome;
 use rio_verif::props::c16;
 
-fuzz_target!(|data: &[u8]| {
+fuzz_target!(init: { rio_verif::engine::install_panic_hook(); }, |data: &[u8]| {
     let mut out = Outcome::new();
     c16::check_bytes(data, &mut out);
     if let Some(m) = out.failure {
